@@ -120,6 +120,29 @@ fn recursive_case(d: usize, u: usize) -> String {
     t
 }
 
+/// Annotation types, well-formed and malformed (wrong arity for built-in and declared generics, empty
+/// forms), paired exhaustively in every type-check position (family "type-matrix").
+const MATRIX_TYPES: &[&str] = &[
+    "table<string, number>", "table<string>", "table<>", "table<string, number, boolean>", "table", "table<K2, V2>",
+    "string[]", "string[][]", "[integer, string]", "[]", "[integer]", "{ a: integer }", "{}", "{ [string]: boolean }", "{ [1]: string, a?: nil }",
+    "fun()", "fun(a: integer): string", "fun(...: integer): ...", "fun<T>(a: T): T", "async fun(): integer",
+    "G2<integer, string>", "G2<integer>", "G2", "G2<integer, string, boolean>", "G2<G2<integer>, G2>", "G1<string>", "G1<>", "G1<string, string>",
+    "A", "B", "A|B", "A & B", "A?", "A[]", "keyof A", "A.x", "Undefined1", "Undefined1<integer>",
+    "integer", "integer?", "number|string", "\"lit\"", "1", "-1", "true", "nil", "any", "unknown", "never", "void", "self", "`T`", "T...", "...integer",
+    "E1", "E1[]", "Al", "Al<integer>", "std.Nullable<string>", "std.Nullable", "std.Partial<A>", "std.Partial",
+];
+
+fn matrix_case(a: usize, b: usize) -> String {
+    let d = MATRIX_TYPES[a % MATRIX_TYPES.len()];
+    let s = MATRIX_TYPES[b % MATRIX_TYPES.len()];
+    format!(
+        "---@class G2<K, V>\n---@field k K\n---@field v V\n---@class G1<T>: G2<T, T>\n---@class A\n---@field x integer\n---@class B: A\n---@enum E1\nlocal E1 = {{ a = 1 }}\n---@alias Al<T> T | T[]\n\
+---@type {d}\nlocal dst\n---@type {s}\nlocal src\ndst = src\n---@param p {d}\nlocal function use(p) return p end\nuse(src)\nlocal r0 = use(src)\n---@return {d}\nlocal function ret() return src end\n\
+local c = src --[[@as {d}]]\n---@type ({d})[]\nlocal arr = {{ src }}\n---@type table<string, {d}>\nlocal map = {{ k = src }}\n---@class H\n---@field f {d}\n---@type H\nlocal h = {{ f = src }}\nh.f = src\n\
+---@generic T\n---@param x T\n---@param y T\n---@return T\nlocal function same(x, y) return x end\nlocal r1 = same(dst, src)\n---@cast dst {s}\nlocal r2 = dst == src\nfor k, v in pairs(src) do local w = dst[k] end\nlocal r3 = src[1]\nlocal r4 = src.k\n"
+    )
+}
+
 struct Case {
     files: Vec<(String, String)>, // (relative path, text)
     version: usize,
@@ -205,7 +228,7 @@ fn case_from(v: &Value) -> Case {
         files: v["files"].as_array().map(|a| a.iter().map(|f| (f[0].as_str().unwrap_or("main.lua").to_string(), f[1].as_str().unwrap_or("").to_string())).collect()).unwrap_or_default(),
         version: v["version"].as_u64().unwrap_or(5) as usize,
         strict: v["strict"].as_u64().unwrap_or(0) as u8,
-        family: "replay",
+        family: if v["family"] == "type-matrix" { "type-matrix" } else { "replay" },
     }
 }
 
@@ -412,6 +435,17 @@ pub fn run(ctx: &mut Ctx) {
         }
     }
 
+    // ---- type matrix: every (declared type, source type) pair in every type-check position, every run ----
+    let nt = MATRIX_TYPES.len();
+    let mine: Vec<usize> = (0..nt * nt).filter(|k| k % ctx.nshards.max(1) as usize == ctx.shard as usize).collect();
+    for chunk in mine.chunks(40) {
+        if ctx.out_of_time() {
+            break;
+        }
+        let cases: Vec<Case> = chunk.iter().map(|k| Case { files: vec![("main.lua".to_string(), matrix_case(k / nt, k % nt))], version: 5, strict: (k % 32) as u8, family: "type-matrix" }).collect();
+        run_batch(ctx, cases, 1_000_000 + chunk[0] as u64);
+    }
+
     // batches of cases run on ONE 2 MiB-stack thread (a thread per case costs more than the case);
     // each case is announced from inside the batch so that an abort is attributed to it
     let batch = 40u64;
@@ -422,26 +456,30 @@ pub fn run(ctx: &mut Ctx) {
         }
         let hi = (i + batch).min(n);
         let cases: Vec<Case> = (i..hi).map(|k| gen_case(&mut Rng::new(ctx.case_seed(k)), &corpus)).collect();
-        let results = {
-            let ctx_cell = std::sync::Mutex::new(&mut *ctx);
-            on_stack(STACK, || {
-                cases
-                    .iter()
-                    .map(|c| {
-                        ctx_cell.lock().unwrap().announce(&case_json(c));
-                        run_one(c)
-                    })
-                    .collect::<Vec<_>>()
-            })
-        };
-        match results {
-            Ok(rs) => {
-                for (k, (c, r)) in cases.iter().zip(rs.into_iter()).enumerate() {
-                    judge(ctx, c, i + k as u64, Some(r));
-                }
-            }
-            Err(_) => ctx.inconclusive("batch-thread-failed"),
-        }
+        run_batch(ctx, cases, i);
         i = hi;
+    }
+}
+
+fn run_batch(ctx: &mut Ctx, cases: Vec<Case>, base: u64) {
+    let results = {
+        let ctx_cell = std::sync::Mutex::new(&mut *ctx);
+        on_stack(STACK, || {
+            cases
+                .iter()
+                .map(|c| {
+                    ctx_cell.lock().unwrap().announce(&case_json(c));
+                    run_one(c)
+                })
+                .collect::<Vec<_>>()
+        })
+    };
+    match results {
+        Ok(rs) => {
+            for (k, (c, r)) in cases.iter().zip(rs.into_iter()).enumerate() {
+                judge(ctx, c, base + k as u64, Some(r));
+            }
+        }
+        Err(_) => ctx.inconclusive("batch-thread-failed"),
     }
 }
